@@ -1466,6 +1466,13 @@ example : ((parse .math (units "∀(a,b)∈X1×X1 a=b")).bind (CCVerif.Norm.norm
     some [(.FORALL, 0, 16), (.ID_LOCAL, 1, 6), (.DECART, 7, 12), (.ID_GLOBAL, 7, 9), (.ID_GLOBAL, 10, 12), (.EQUAL, 13, 16),
       (.SMALLPR, 13, 14), (.ID_LOCAL, 13, 14), (.SMALLPR, 15, 16), (.ID_LOCAL, 15, 16)] := by decide +kernel
 
+/-- the `iterationsLimit` site is reached (loop level: `EvalPos.quantLoop_limit` - a universal quantifier whose body holds
+everywhere, over more than `MAX_ITERATIONS` elements, ends with `iterationsLimit` at the quantifier's position); an
+entry-level text would need 100001 kernel-evaluated iterations and is left to the harness -/
+example : CCVerif.Eval.quantLoop (fun st => .ok (.bool true) st) 0 true 6 (List.replicate 100001 (.e 0)) { data := [.e 0], iters := 0 } =
+    .fail (.err CCVerif.Eval.EID.iterationsLimit 6) 100001 :=
+  quantLoop_limit _ 0 6 (fun st => ⟨st, rfl, rfl⟩) _ _ (by decide) (by simp only [List.length_replicate]; decide)
+
 /-- `1=debool({1,2})`: accepted, the evaluator logs `invalidDebool` (0x8A05) at 2 - strictly inside the text;
 a definition evaluated directly: accepted, `unknownError` (0x8A00) at 0 (the recorded finding - `ViGlobalDeclaration` of the
 name collector returns false without an error) -/
